@@ -16,7 +16,9 @@ triangle/box test is a black box):
   `intersections[w.intersections_range]` written by the counting sort is exactly the increasing list of the triangle
   indices `k` whose triangle has the cell of `w` in its candidate range with a positive test;
 * `vox3_set_map_mem_iff` / `vox3_set_map_sorted` — membership form (`Hit3`) and strict monotonicity of that list;
-* `vox3_set_map_nonempty` — every surface voxel lists at least one triangle.
+* `vox3_set_map_nonempty` — every surface voxel lists at least one triangle;
+* `vox3_set_map_ranges` — the ranges are in bounds, have the length of the counters and do not overlap;
+* `vox3_map_nonempty_iff` — the map is non-empty iff there is a surface cell.
 -/
 set_option linter.style.haveILetI false
 set_option linter.unusedSectionVars false
@@ -320,6 +322,25 @@ theorem vox3_map_nonempty_iff (flood dc : Bool) (res : Nat) (hres : 1 ≤ res) (
       rw [m4]
       exact List.mem_flatMap.mpr ⟨(k, t), mem_enumTris.mpr hk, triPairs3_of_hit _ _ _ _ _ _ (k, t) q hh⟩
     exact List.ne_nil_of_mem this
+
+/-- **vox3_set_map_ranges** (`keep_voxel_to_primitives_map = true`, no panic, map not empty): `intersections` of the
+`VoxelSet` has exactly one slot per entry of `primitive_intersections`; the `intersections_range` of every surface voxel
+has the length of the voxel's counter and lies inside `intersections` (the slice
+`&self.intersections[range.0..range.1]` of `compute_primitive_intersections` cannot panic); the ranges of the surface
+voxels follow each other in voxel order and never overlap. -/
+theorem vox3_set_map_ranges (flood dc : Bool) (res : Nat) (p0 : V3 K) (ps : List (V3 K))
+    (tris : List (Nat × Nat × Nat)) (V : Vol3K K) (hV : (voxelize3K flood dc res p0 ps tris).1 = V) (hp : V.panic = false)
+    (hne : V.prims.isEmpty = false) :
+    (toVoxelSet3K V).2.size = V.prims.size ∧
+    (∀ w ∈ (toVoxelSet3K V).1.toList, w.surf = true →
+      w.r1 = w.r0 + (V.prims.toList.filter (fun pr => pr.1 = idx3 V.ni V.nj w.i w.j w.k)).length ∧ w.r1 ≤ (toVoxelSet3K V).2.size) ∧
+    List.Pairwise (fun a b : Voxel3K => a.r1 ≤ b.r0) ((toVoxelSet3K V).1.toList.filter (·.surf)) := by
+  obtain ⟨_, m2, m3, _⟩ := vox3K_master flood dc res p0 ps tris V hV hp
+  obtain ⟨r1, r2, r3⟩ := toVoxelSet3K_ranges V hne m2 m3
+  refine ⟨r1, fun w hw hws => ?_, r3⟩
+  obtain ⟨a1, a2⟩ := r2 w hw hws
+  rw [m3] at a1
+  exact ⟨a1, by rw [r1]; exact a2⟩
 
 end generic3K
 end C18
